@@ -31,11 +31,12 @@ const (
 	FEndless
 	FPanic
 	FWrongCT
-	FLyingCL // announces a huge Content-Length, sends a small body, then the connection drops
+	FLyingCL  // announces a huge Content-Length, sends a small body, then the connection drops
+	FCloseErr // the complete body is delivered (end marker included); closing the body then reports an error
 	nFaultKinds
 )
 
-var faultNames = []string{"none", "conn_error", "stall", "status", "redirect", "empty_body", "truncated", "body_error", "body_stall", "garbage", "oversize", "endless", "panic", "wrong_content_type", "lying_content_length"}
+var faultNames = []string{"none", "conn_error", "stall", "status", "redirect", "empty_body", "truncated", "body_error", "body_stall", "garbage", "oversize", "endless", "panic", "wrong_content_type", "lying_content_length", "close_error"}
 
 // Fault is an HTTP-level fault plan of one exchange.
 type Fault struct {
@@ -520,6 +521,9 @@ func (b *simBody) Close() error {
 		b.x.Rec.TClosed = time.Now()
 		if b.net != nil && b.net.OnClose != nil {
 			b.net.OnClose(b.x)
+		}
+		if b.x.Fault.Kind == FCloseErr {
+			return errors.New("sim: error while closing the connection")
 		}
 	}
 	return nil
